@@ -98,6 +98,9 @@ def programs(tier):
     # ---- unique_vec over two fixed lists -----------------------------------------
     for sz in (1, 2):
         add("uvec%d" % sz, _mk_two(sz), lambda v: v["l"] != v["l2"], fixed=sz, kind="bit1")
+    # ---- unique_vec over three and four lists: every pair of vectors differs ----------
+    for k in (3, 4):
+        add("uvec2x%d" % k, _mk_vecs(2, k), lambda v, k=k: len(set(tuple(v[nm]) for nm in ("l", "l2", "l3", "l4")[:k])) == k, fixed=2, kind="bit1")
     # ---- enum list -----------------------------------------------------------------
     for sz in (1, 2, 3):
         add("enum%d/unique" % sz, _mk_enum(sz, lambda s: vsc.unique(s.l)), lambda v: len(set(v["l"])) == len(v["l"]), fixed=sz, kind="enum")
@@ -200,6 +203,28 @@ def _mk_two(sz):
     return mk
 
 
+def _mk_vecs(sz, k):
+    def mk():
+        @vsc.randobj
+        class C(object):
+            def __init__(self):
+                self.l = vsc.rand_list_t(vsc.bit_t(1), sz)
+                self.l2 = vsc.rand_list_t(vsc.bit_t(1), sz)
+                self.l3 = vsc.rand_list_t(vsc.bit_t(1), sz)
+                if k > 3:
+                    self.l4 = vsc.rand_list_t(vsc.bit_t(1), sz)
+                self.n = vsc.rand_bit_t(3)
+
+            @vsc.constraint
+            def cl(self):
+                if k > 3:
+                    vsc.unique_vec(self.l, self.l2, self.l3, self.l4)
+                else:
+                    vsc.unique_vec(self.l, self.l2, self.l3)
+        return C
+    return mk
+
+
 def _mk_enum(sz, bld):
     def mk():
         @vsc.randobj
@@ -273,8 +298,9 @@ def view(o, kind):
         itv = [int(x) for x in it]
         idx = [int(l[i]) for i in range(len(it))]
     v = {"l": itv, "idx": idx, "len": len(l), "size": int(l.size), "n": int(o.n)}
-    if hasattr(o, "l2"):
-        v["l2"] = [int(x) for x in o.l2]
+    for nm in ("l2", "l3", "l4"):
+        if hasattr(o, nm):
+            v[nm] = [int(x) for x in getattr(o, nm)]
     return v
 
 
